@@ -172,6 +172,12 @@ fn root_script(root: &str) -> Vec<RootStep> {
             Exact(Act::InboundPending { p: 1 }),
             Exact(Act::InboundPending { p: 2 }),
         ],
+        // an outbound connection to peer 2 is established (part of an outbound limit is used up)
+        "p2-outbound-established" => vec![
+            Exact(Act::DialAddr { p: 2, a: 0 }),
+            Last("Established"),
+            First("AcceptDone"),
+        ],
         // peer 1 holds the two connections a peer may have
         "p1-two-connections" => vec![
             Exact(Act::InboundPending { p: 1 }),
@@ -1126,6 +1132,12 @@ pub fn run_filtered(ctx: &mut Ctx, filter: &'static str) {
             e1::absorb(ctx, &label, out);
         }
     }
+    // an outbound limit of 2 of which one slot is taken: a dial by peer id may try one address, not two
+    if filter == "c10" {
+        let m = MgrModel { max_in: None, max_out: Some(2), depth, filter, known: BTreeSet::new(), root: "p2-outbound-established", ws: false };
+        let out = ex.run(&m);
+        e1::absorb(ctx, "manager[max_in=None,max_out=Some(2),root=p2-outbound-established]", out);
+    }
     // two transports (TCP + WebSocket): one dial by peer id runs on both, under one connection id
     if filter == "c05" || filter == "c10" {
         let known: BTreeSet<String> = crate::report::load_known_findings()
@@ -1169,6 +1181,7 @@ pub fn replay(case: &Value) -> Result<String, String> {
             Some("p1-inbound-and-dial-in-flight+p2-outbound") => "p1-inbound-and-dial-in-flight+p2-outbound",
             Some("p1-two-connections") => "p1-two-connections",
             Some("p1-opening+two-inbound-pending") => "p1-opening+two-inbound-pending",
+            Some("p2-outbound-established") => "p2-outbound-established",
             _ => "",
         },
     };
